@@ -32,7 +32,7 @@ func ZZ_C13_createOrReuse() {
 	}
 	ds := zzEDS("ns", "foo", tpl, canary)
 	// one peculiarity of the object at a time (kept exclusive to bound the number of paths):
-	quirk := nondet.String("eds.quirk", "none", "stale-hash-annotation", "selector-edited", "reserved-label-own-name", "reserved-label-other-name", "rollout-frozen")
+	quirk := nondet.String("eds.quirk", "none", "stale-hash-annotation", "selector-edited", "reserved-label-own-name", "reserved-label-other-name", "rollout-frozen", "matching-replica-set-terminating")
 	// a frozen rollout creates and deletes no pod; replica sets are created, promoted and collected as usual
 	if quirk == "rollout-frozen" {
 		ds.Annotations[datadoghqv1alpha1.ExtendedDaemonSetRolloutFrozenAnnotationKey] = "true"
@@ -60,6 +60,17 @@ func ZZ_C13_createOrReuse() {
 		}
 		c.ERS = append(c.ERS, rs)
 		present = append(present, id)
+	}
+	// the replica set of spec.template may be under foreground deletion (deletionTimestamp set, held by a
+	// finalizer while its pods run): it still exists, so no second one is created for its template
+	if quirk == "matching-replica-set-terminating" {
+		for _, rs := range c.ERS {
+			if rs.Name == "foo-"+tpl {
+				at := metav1.NewTime(nondet.Base().Add(-30 * time.Second))
+				rs.DeletionTimestamp = &at
+				rs.Finalizers = []string{"foregroundDeletion"}
+			}
+		}
 	}
 	switch quirk {
 	case "reserved-label-own-name":
